@@ -99,6 +99,7 @@ def run(rep):
     mask_shifts(rep, fns)
     eof_progress(rep, fns)
     scanline_buffers(rep, fns)
+    size_arithmetic(rep, fns)
     from .p06 import accept_inconclusive
     accept_inconclusive(rep, "c11_inconclusive.json")
 
@@ -754,3 +755,58 @@ def eof_progress(rep, fns):
             else:
                 rep.violation("R6-eof", key, "%s:%s" % (rel(f), lp.get("line")), {"problem": "the loop reads with getc_unchecked() and has no exit taken on EOF: it does not terminate on truncated input"})
     rep.floor("obligations:R6", 4)
+
+
+def size_arithmetic(rep, fns):
+    """R8: sizes, pitches and file offsets are products of header fields. The header types are narrow (targa: uint16 x uint16, bmp: int32 x uint16), so a product that
+    is computed in the promoted type `int` can wrap for a crafted header and the buffer derived from it is too small for the pixels the reader then copies."""
+    rep.rule("R8 in every instantiated I/O function a multiplication that involves a data member of the reader (the header fields _info.*, or a pitch / scanline length "
+             "derived from them) is computed in a 64-bit type, or its interval -- from the canonical types of its leaves, looking through the integral promotions -- "
+             "stays inside the type it is computed in. A violation carries the extreme operands as witness; a product whose operands are compared with anything "
+             "in the same function before it (a validation) is left undecided instead")
+    seen = {}
+    nprod = 0
+    for f in fns:
+        w = rel(f)
+        if "/io/" not in w:
+            continue
+        g = f
+        for x, path in R.find(g["body"], lambda x: x.get("k") == "Binary" and x.get("op") == "*" and "const" not in x):
+            t = R._cty(x.get("ctype") or x.get("type") or "")
+            if t not in R._NARROW and t not in R._WIDE:
+                continue
+            mem = [m for m, _ in R.find(x, lambda y: y.get("k") == "Member" and y.get("dk") == "Field")]
+            if not mem:
+                continue
+            # the outermost product only (a*b*c is reported once)
+            par = path[-1][0] if path else None
+            while par is not None and par.get("k") in ("Paren", "ImplicitCast") and False:
+                break
+            if any(a.get("k") == "Binary" and a.get("op") == "*" for a, _, _ in path[-3:]):
+                continue
+            nprod += 1
+            r = R.type_range(x)
+            lim = R._TYRANGE.get(t)
+            keyx = R.key(x)
+            k = "R8:%s:%s:%s" % (fmt_of(f) or "io", f["name"].split("::")[-1], re.sub(r"this\.|this->", "", keyx))
+            if k in seen:
+                continue
+            seen[k] = 1
+            rep.count("obligations:R8")
+            if t in R._WIDE:
+                rep.ok("R8-size-arithmetic", k, {"computed_in": t})
+                continue
+            if r is not None and lim[0] <= r[0] and r[1] <= lim[1]:
+                rep.ok("R8-size-arithmetic", k, {"computed_in": t, "interval": r})
+                continue
+            names = sorted({m["name"] for m in mem})
+            validated = [R.key(c)[:100] for c, _ in R.find(g["body"], lambda y: y.get("k") == "Binary" and y.get("op") in ("<", "<=", ">", ">=") and (y.get("line") or 0) < (x.get("line") or 0)
+                                                            and any(n in R.key(y) for n in names if n not in ("_info",)) and "_bits_per_pixel" not in R.key(y)
+                                                            and R.key(y["l"]) != "0" and R.key(y["r"]) != "0")]
+            if r is None or validated:
+                rep.incon("R8-size-arithmetic", k, {"where": R.fn_where(f), "product": keyx, "computed_in": t, "interval": r, "comparisons before it": validated[:4]})
+                continue
+            ops = [R.type_range(x["l"]), R.type_range(x["r"])]
+            rep.violation("R8-size-arithmetic", k, R.fn_where(f), {"product": keyx, "computed_in": t, "interval_from_leaf_types": r, "operand_intervals": ops,
+                          "witness": "operands %s and %s: the product %d does not fit %s" % (ops[0][1], ops[1][1], ops[0][1] * ops[1][1], t)})
+    rep.floor("obligations:R8", 12)
